@@ -739,10 +739,10 @@ Definition dhcp_step (cx : ctx) (m : dhcpmsg) (st : state) : state * list string
 (* Handler.StartHunt(addr): forceRelease(lease.ClientID, gw, lease.Addr.MAC, lease.Addr.IP, nil); xid is random *)
 Definition hunt_step (cx : ctx) (ip : bytes) (st : state) : list string :=
   match find (fun l => beqb (l_ip l) ip) (st_leases st) with
-  | Some l => (* only for a lease of the home subnet (lease.subnet.Stage != StageRedirected);
-                 sendDeclineReleasePacket is called with nil options: the release carries no client id *)
+  | Some l => (* only for a lease of the home subnet (lease.subnet.Stage != StageRedirected); the release carries
+                 copies of the lease's client id and MAC (/repo 0040075 passes the options on) and a random xid *)
               if l_sub l then [] else
-              [show_decl cx "7" (Owned []) (retain RP_decline_mac cx (Held (l_mac l))) (Owned []) ip]
+              [show_decl cx "7" (retain RP_decline_cid cx (Held (l_cid l))) (retain RP_decline_mac cx (Held (l_mac l))) (Owned []) ip]
   | None => []
   end.
 
